@@ -284,4 +284,53 @@ def rule_iter_advance(P):
     return R
 
 
-RULES = [rule_level_sign, rule_twins, rule_eval_dispatch, rule_iter_advance]
+def rule_fold_mirror(P):
+    """minterm collections: the values of repeated minterms are folded by minimum or maximum, with +infinity as a special value.  Both folds are
+    commutative, so what happens when the *element* is infinite and what happens when the *accumulator* is infinite are mirror images: if an
+    infinite element leaves the accumulator alone (minimum: infinity is the identity), an infinite accumulator must give way to the element; if an
+    infinite element replaces the accumulator (maximum: infinity absorbs), an infinite accumulator stays.  Exactly one of the two arms assigns
+    accumulator = element."""
+    R = RuleResult("sibling.fold-mirror", "in fbop_min_tmpl / fbop_max_tmpl ::finalize exactly one of the arms `element is +infinity` / `accumulator is +infinity` assigns accumulator = element (the two cases of a commutative fold are mirror images)")
+    n = 0
+    for f in sorted(P.fns.values(), key=lambda f: (f["file"], f["line"], f["inst"])):
+        if not f.get("cfg") or not re.search(r"fbop_(min|max)_tmpl<.*>::finalize$", f["inst"]):
+            continue
+        g = Graph(f)
+        enc = [k for k in g.nodes if k.kind == "call" and k.ev["q"].endswith("::getEdgeForValue")]
+        if not enc:
+            raise AnalysisBroken("sibling.fold-mirror: %s no longer encodes its result with getEdgeForValue" % f["inst"])
+        acc = _nz(enc[0].ev["args"][0])
+        tests = [b for b in g.nodes if b.kind == "branch" and b.cond and len(b.succ) == 2 and re.fullmatch(r"!?(\w+)\.isPlusInfinity\(\)", _nz(b.cond["text"]))]
+        by = {}
+        for b in tests:
+            by.setdefault(re.fullmatch(r"!?(\w+)\.isPlusInfinity\(\)", _nz(b.cond["text"])).group(1), []).append(b)
+        els = [v for v in by if v != acc]
+        if acc not in by or len(els) != 1:
+            raise AnalysisBroken("sibling.fold-mirror: %s: expected +infinity tests of the accumulator `%s` and of one element, found %s" % (f["inst"], acc, sorted(by)))
+        el = els[0]
+        n += 1
+        R.functions.add(f["inst"])
+        R.paths += 1
+
+        def assigns(b):
+            te = 1 if b.cond.get("neg") else 0
+            cut = lambda k: k.kind == "branch" and k.id != b.id and k.cond and ("<" in k.cond["text"] and "isPlusInfinity" not in k.cond["text"]) and False
+            t_arm = g.reach([s_ for s_, i in b.succ if i == te], avoid=lambda k: k.id == b.id)
+            f_arm = g.reach([s_ for s_, i in b.succ if i != te], avoid=lambda k: k.id == b.id)
+            only = t_arm - f_arm
+            return any(k.kind == "call" and k.ev["q"].endswith("operator=") and [_nz(a) for a in k.ev["args"]] == [acc, el] for k in (g.nodes[i] for i in only))
+        r_el = any(assigns(b) for b in by[el])
+        r_acc = any(assigns(b) for b in by[acc])
+        iid = "%s: element-infinite arm %s, accumulator-infinite arm %s" % (f["inst"].replace(M, "")[:60], "takes the element" if r_el else "keeps the accumulator", "takes the element" if r_acc else "keeps the accumulator")
+        if r_el != r_acc:
+            R.ok(iid, where(f))
+        else:
+            R.fail(iid, where(f), Finding(R.rule, f["file"], base_name(f["q"]), "mirror",
+                   "both +infinity cases %s: the fold gives different results for {…, +infinity, x} and {…, x, +infinity} — the function built from a minterm collection depends on the order of its entries" % ("keep the accumulator" if not r_el else "take the element"), f["line"], inst=f["inst"]))
+    if n < 4:
+        raise AnalysisBroken("sibling.fold-mirror: expected ≥4 instantiations of fbop_min_tmpl / fbop_max_tmpl ::finalize, found %d" % n)
+    R.require_floor(4, "collection folds")
+    return R
+
+
+RULES = [rule_level_sign, rule_twins, rule_eval_dispatch, rule_iter_advance, rule_fold_mirror]
